@@ -93,6 +93,12 @@ def gen_script(rng, max_msg):
             m = json.dumps({"id": idc[0] + 7000, "method": "info"}).encode()
             steps.append(dict(c=c, unit=wire.raw_frame(m + rng.choice([b"", b"}", b"\x00", b" ", b"]}"]))))       # trailing bytes inside the declared length
         else:
+            if rng.random() < 0.6:
+                # last words: a request directly followed by the end of the stream (the kernel may report both at once)
+                if rng.random() < 0.5:
+                    req(c, "add", {"path": "lw/%d" % idc[0], "value": idc[0]})
+                else:
+                    req(c, rng.choice(["info", "get"]), None)
             steps.append(dict(c=c, eof=True))
     # a unit that is longer than the read buffer takes effect (ends the connection) as soon as its length field is
     # complete, not when its last byte arrives: only a shorter prefix of it may be delivered early
@@ -190,6 +196,11 @@ def execute(binary, conns, steps, policy, rng, timeout=60):
                 if policy.get("poll_between") and rng.random() < policy["poll_between"]:
                     sim.settle(**policy.get("batch", {}))
             sim.send(fds[c], chunks[-1])
+            if (policy.get("fin_coalesce") and not tail and i + 1 < len(steps) and steps[i + 1]["c"] == c and steps[i + 1].get("eof")
+                    and rng.random() < policy["fin_coalesce"]):
+                # the FIN arrives together with the last bytes: one readiness event carries both
+                sim.eof(fds[c])
+                ended[c] = True
             sim.settle(**policy.get("batch", {}))
             if policy.get("spurious") and rng.random() < policy["spurious"]:
                 sim.poll(order=[fds[c]], spurious=fds[c])
@@ -215,20 +226,20 @@ def execute(binary, conns, steps, policy, rng, timeout=60):
 
 
 POLICIES = [
-    dict(name="bytes", chunks="bytes"),
+    dict(name="bytes", chunks="bytes", fin_coalesce=0.8),
     dict(name="bytes+polls", chunks="bytes", poll_between=1.0),
-    dict(name="k2", chunks=2, poll_between=0.5),
-    dict(name="k3+coalesce", chunks=3, coalesce=0.7),
+    dict(name="k2", chunks=2, poll_between=0.5, fin_coalesce=0.8),
+    dict(name="k3+coalesce", chunks=3, coalesce=0.7, fin_coalesce=0.7),
     dict(name="k5", chunks=5, poll_between=0.3, coalesce=0.3),
     dict(name="k7+scribble}", chunks=7, scribble=2, coalesce=0.5),
     dict(name="rand+scribble-quote", chunks="rand", scribble=3, poll_between=0.5),
     dict(name="whole+coalesce+scribble-tail", chunks="whole", coalesce=0.9, scribble=4),
-    dict(name="whole+scribble-ff", chunks="whole", scribble=6),
+    dict(name="whole+scribble-ff", chunks="whole", scribble=6, fin_coalesce=1.0),
     dict(name="whole+scribble-1", chunks="whole", scribble=7, coalesce=0.5),
     dict(name="rand+scribble-rand", chunks="rand", scribble=5, coalesce=0.5, poll_between=0.5),
-    dict(name="rand+batch1", chunks="rand", batch={"max": 1}, coalesce=0.4),
+    dict(name="rand+batch1", chunks="rand", batch={"max": 1}, coalesce=0.4, fin_coalesce=0.7),
     dict(name="rand+shuffle", chunks="rand", batch={"shuffle": 77}, coalesce=0.4, poll_between=0.4),
-    dict(name="whole+spurious", chunks="whole", spurious=0.3),
+    dict(name="whole+spurious", chunks="whole", spurious=0.3, fin_coalesce=1.0),
     dict(name="bytes+scribble-brace", chunks="bytes", scribble=2, poll_between=0.2),
     dict(name="k2+coalesce+scribble-zero", chunks=2, coalesce=0.8, scribble=1),
 ]
